@@ -2,6 +2,7 @@
 import ast
 
 from ..core import astutil as A
+from ..core import match as M
 from ..core.model import dotted
 
 META = {
@@ -12,13 +13,38 @@ META = {
 MOD = "pkgcore.bugzilla.query"
 
 
+def _alt(node, pats, env=None):
+    """first match of the first alternative spelling that matches"""
+    for p in pats:
+        m = M.one(node, p, env)
+        if m is not None:
+            return m
+    return None
+
+
+def _effective(stmts):
+    """statements that do something (no `pass`, no bare constant expression)"""
+    return [s for s in stmts if not isinstance(s, ast.Pass) and not (isinstance(s, ast.Expr) and isinstance(s.value, ast.Constant))]
+
+
+def _stores(node, name):
+    return [n for n in A.walk(node) if isinstance(n, ast.Name) and n.id == name and isinstance(n.ctx, ast.Store)]
+
+
+def _name(node):
+    return node.id if isinstance(node, ast.Name) else None
+
+
 def run(ctx):
     P = ctx.program
     ctx.explanation = META["level"]
     # ---- R1 slot threading ------------------------------------------------------------------------
-    sites = [(P.func(MOD, "ChartGroup.render"), "self.children"), (P.func(MOD, "BugQuery.params"), "self.charts")]
-    for fn, coll in sites:
-        loops = [n for n in A.body_walk(fn.node) if isinstance(n, ast.For) and A.unparse(n.iter).endswith(coll) or (isinstance(n, ast.For) and coll in A.unparse(n.iter))]
+    # per site: the collection walked, and how the parameter list every child is collected into is produced
+    sites = [(P.func(MOD, "ChartGroup.render"), "self.children", ["$p = [(f'f{slot}', 'OP'), (f'j{slot}', str(self.join))]"]),
+             (P.func(MOD, "BugQuery.params"), "self.charts", ["$p: $_ = []\nreturn $p", "$p = []\nreturn $p"])]
+    running = {}
+    for fn, coll, collector in sites:
+        loops = [n for n in A.body_walk(fn.node) if isinstance(n, ast.For) and coll in A.unparse(n.iter)]
         ctx.require(len(loops) == 1, f"{fn.qual}: loop over {coll} not found")
         lp = loops[0]
         calls = [c for c in A.calls(lp) if dotted(c.func) == "_render"]
@@ -30,23 +56,32 @@ def run(ctx):
         threaded = isinstance(slot_arg, ast.Name) and isinstance(tgt, ast.Tuple) and len(tgt.elts) == 2 and A.unparse(tgt.elts[1]) == slot_arg.id and A.unparse(lp.iter) == coll
         ctx.check("R1", fn, threaded, f"slot-threaded:{A.unparse(slot_arg)[:20]}", f"{fn.qual}: each child is rendered at the slot returned by the previous child (`{A.unparse(st)[:50]}`)",
                   f"{fn.qual} renders a child at `{A.unparse(slot_arg)}`, which is not the running slot returned by the previous child: a nested group occupying several slots is overlapped by its following sibling (duplicate f/o/v slots)", node=c)
-        ctx.check("R1", fn, "params.extend(rendered)" in A.unparse(lp), f"children-collected:{fn.name}", "every child's parameters are collected")
+        running[fn.qual] = _name(slot_arg) if threaded else None
+        got = _alt(fn.node, collector)
+        env = {"p": got["p"]} if got else {}
+        ctx.check("R1", fn, got is not None and M.has(lp, "$r, $s = _render($c, $$at)\n$p.extend($r)", env), f"children-collected:{fn.name}", "every child's parameters are collected")
     gr = sites[0][0]
-    t = A.unparse(gr.node)
-    first = gr.node.body[0]
-    ctx.check("R1", gr, "(f'f{slot}', 'OP')" in A.unparse(first) and "(f'j{slot}', str(self.join))" in A.unparse(first), "group-open", "a group opens with OP (and its join) at its entry slot")
-    ctx.check("R1", gr, A.unparse(gr.node.body[1]) == "slot += 1", "children-after-open", "children start at the slot after OP")
-    last2 = [A.unparse(s) for s in gr.node.body[-2:]]
-    ctx.check("R1", gr, last2 == ["params.append((f'f{slot}', 'CP'))", "return (params, slot + 1)"], f"group-close:{last2[0][:30]}", "CP goes at the running slot after the last child; the group hands back the slot after CP",
+    opn = M.one(gr.node, "$p = [(f'f{slot}', 'OP'), (f'j{slot}', str(self.join))]")
+    slot_stores = _stores(gr.node, "slot")
+    ctx.check("R1", gr, opn is not None and opn.node in gr.node.body and all(n.lineno > opn.node.lineno for n in slot_stores), "group-open", "a group opens with OP (and its join) at its entry slot")
+    seq = [m for m in M.find(gr.node, "$p = [(f'f{slot}', 'OP'), (f'j{slot}', str(self.join))]\nslot += 1\nfor $c in self.children:\n    $r, slot = _render($c, slot)") if m.node in gr.node.body]
+    ctx.check("R1", gr, bool(seq) and len(slot_stores) == 2, "children-after-open", "children start at the slot after OP")
+    env = {"p": opn["p"]} if opn else {}
+    close = [m for m in M.find(gr.node, "for $c in self.children:\n    ...\n$p.append((f'f{slot}', 'CP'))\nreturn ($p, slot + 1)", env) if m.node in gr.node.body]
+    appends = M.find(gr.node, "$p.append($_)", env)
+    last2 = [A.unparse(s) for s in _effective(gr.node.body)[-2:]]
+    ctx.check("R1", gr, bool(close) and len(appends) == 1 and len(A.returns(gr.node)) == 1, f"group-close:{last2[0][:30]}", "CP goes at the running slot after the last child; the group hands back the slot after CP",
               f"ChartGroup.render closes with {last2}", node=gr.node)
     rf = P.func(MOD, "_render")
-    tr = A.unparse(rf.node)
-    ctx.check("R1", rf, "return chart.render(slot)" in tr and "return (chart.render(slot), slot + 1)" in tr, "criterion-takes-one-slot", "a criterion takes exactly one slot; a group reports its own extent")
+    one_slot = [m for m in M.find(rf.node, "if isinstance(chart, ChartGroup):\n    return chart.render(slot)\nreturn (chart.render(slot), slot + 1)") if m.node in rf.node.body]
+    ctx.check("R1", rf, bool(one_slot) and len(A.returns(rf.node)) == 2, "criterion-takes-one-slot", "a criterion takes exactly one slot; a group reports its own extent")
     cr = P.func(MOD, "Criterion.render")
     keys = {A.unparse(n) for n in A.walk(cr.node) if isinstance(n, ast.JoinedStr)}
     ctx.check("R1", cr, keys == {"f'f{slot}'", "f'o{slot}'", "f'v{slot}'", "f'n{slot}'"}, f"criterion-keys:{len(keys)}", "a criterion writes only f/o/v/n of its own slot")
     pm = sites[1][0]
-    ctx.check("R1", pm, "slot = 1" in A.unparse(pm.node), "slots-start-at-1", "top-level slots start at 1")
+    s = running[pm.qual]
+    start = [m for m in M.find(pm.node, "$s = 1\nfor $c in self.charts:\n    $r, $s = _render($c, $s)", {"s": s} if s else None) if m.node in pm.node.body]
+    ctx.check("R1", pm, bool(start) and len(_stores(pm.node, start[0]["s"])) == 2, "slots-start-at-1", "top-level slots start at 1")
     ctx.floor("R1", 10)
 
     # ---- R2 rebuild addressing ----------------------------------------------------------------------------
@@ -61,16 +96,27 @@ def run(ctx):
     by_index = isinstance(it.iter, ast.Call) and dotted(it.iter.func) == "enumerate" and isinstance(it.target, ast.Tuple) and A.unparse(it.target.elts[0]) == A.unparse(bound)
     ctx.check("R2", sa, by_index, f"chart-addressed-by-position:{A.unparse(bound)}", "the split criterion is addressed by its position in charts",
               f"_split_axis binds _rebuild_chart to `{A.unparse(bound)}`: chart fields are not unique (package_list_any(A) & package_list_any(B)), so every batch overwrites ALL criteria on that field with the batch slice and the other condition is no longer repeated unchanged", node=parts[0])
-    stores = [t_ for t_, v, _ in A.assignments(rc.node) if isinstance(t_, ast.Subscript) and A.unparse(t_.slice) == rc.params()[1]]
-    ctx.check("R2", rc, len(stores) == 1 and "with_values(values)" in A.unparse(rc.node), "rebuild-replaces-one", "_rebuild_chart replaces exactly the addressed element",
+    idx = rc.params()[1]
+    stores = [(t_, v) for t_, v, _ in A.assignments(rc.node) if isinstance(t_, ast.Subscript) and A.unparse(t_.slice) == idx]
+    copy = M.one(rc.node, "$c = list(self.charts)")
+    one_elt = False
+    if len(stores) == 1 and copy is not None:
+        t_, v = stores[0]
+        one_elt = _name(t_.value) == copy["c"] and any(M.pat(p).matches(v, copy.env) for p in (f"typing.cast($_, $c[{idx}]).with_values(values)", f"$c[{idx}].with_values(values)"))
+    ctx.check("R2", rc, one_elt, "rebuild-replaces-one", "_rebuild_chart replaces exactly the addressed element",
               "_rebuild_chart no longer replaces exactly one addressed criterion", node=rc.node)
     rs = P.func(MOD, "BugQuery._rebuild_simple")
-    ctx.check("R2", rs, "tuple((x for x in self.simple if x[0] != key))" in A.unparse(rs.node) and "simple += ((key, tuple(values)),)" in A.unparse(rs.node), "simple-rebuilt-by-key", "the id axis is rebuilt by key")
+    kept = M.one(rs.node, "$s = tuple(($x for $x in self.simple if $x[0] != key))")
+    senv = {"s": kept["s"]} if kept else {}
+    ctx.check("R2", rs, kept is not None and M.has(rs.node, "$s += ((key, tuple(values)),)", senv), "simple-rebuilt-by-key", "the id axis is rebuilt by key")
     ms = P.func(MOD, "_merge_simple")
-    ctx.check("R2", ms, "dict(left)" in A.unparse(ms.node) and "return tuple(merged.items())" in A.unparse(ms.node), "simple-keys-unique", "simple keys are unique (merged through a dict), so addressing by key is safe")
-    t = A.unparse(sa.node)
-    ctx.check("R2", sa, "if key == 'id'" in t and "isinstance(chart, Criterion) and chart.splittable" in t, "axes", "only the id parameter and criteria marked splittable can be split")
-    ctx.check("R2", rc, "dataclasses.replace(self, charts=tuple(charts))" in A.unparse(rc.node) and "dataclasses.replace(self, simple=simple)" in A.unparse(rs.node), "others-unchanged", "everything else is carried over unchanged (dataclasses.replace)")
+    mrg = _alt(ms.node, ["$m: $_ = dict(left)\nreturn tuple($m.items())", "$m = dict(left)\nreturn tuple($m.items())"])
+    ctx.check("R2", ms, mrg is not None and mrg.node in ms.node.body, "simple-keys-unique", "simple keys are unique (merged through a dict), so addressing by key is safe")
+    chart_var = it.target.elts[-1] if isinstance(it.target, ast.Tuple) else it.target
+    chart_axis = _name(chart_var) is not None and len(it.ifs) == 1 and M.pat("isinstance($c, Criterion) and $c.splittable").matches(it.ifs[0], {"c": chart_var.id}) is not None
+    id_axis = M.has(sa.node, "[($k, $v, functools.partial(self._rebuild_simple, $k)) for $k, $v in self.simple if $k == 'id']")
+    ctx.check("R2", sa, chart_axis and id_axis, "axes", "only the id parameter and criteria marked splittable can be split")
+    ctx.check("R2", rc, copy is not None and M.has(rc.node, "return dataclasses.replace(self, charts=tuple($c))", copy.env) and M.has(rs.node, "return dataclasses.replace(self, simple=$s)", senv), "others-unchanged", "everything else is carried over unchanged (dataclasses.replace)")
     ctx.floor("R2", 6)
 
     # ---- R3 budget accounting -----------------------------------------------------------------------------------
@@ -79,37 +125,58 @@ def run(ctx):
     ctx.require(len(loops) == 1, "batches: value loop not found")
     lp = loops[0]
     val = A.unparse(lp.target)
-    cost = [v for t_, v, _ in A.assignments(lp, "cost")]
-    ok = len(cost) == 1 and A.unparse(cost[0]) == f"len(urllib.parse.urlencode(((key, {val}),))) + 1"
+    # the axis is unpacked into (key, values, rebuild): the roles of the three locals
+    unpack = [m for m in M.find(ba.node, "$key, $values, $rebuild = $axis") if m.node in ba.node.body and m.node.lineno < lp.lineno]
+    E = dict(unpack[0].env) if len(unpack) == 1 else {}
+    unsplit = [m for m in M.find(ba.node, "if ($axis := self._split_axis()) is None:\n    yield self\n    return\n$key, $values, $rebuild = $axis", E) if m.node in ba.node.body]
+    E.pop("axis", None)
+    # cost: the per-value local computed from the encoded pair
+    cost_st = [s for s in lp.body if isinstance(s, ast.Assign) and len(s.targets) == 1 and _name(s.targets[0]) and any(dotted(c.func) == "urllib.parse.urlencode" for c in A.calls(s.value))]
+    cost = [s.value for s in cost_st]
+    ok = len(cost) == 1 and "key" in E and M.pat(f"len(urllib.parse.urlencode((($key, {val}),))) + 1").matches(cost[0], E) is not None
     ctx.check("R3", ba, ok, f"cost-includes-separator:{A.unparse(cost[0])[-12:] if cost else ''}", "each value is charged its encoded length plus one separator",
               f"per-value cost is `{A.unparse(cost[0]) if cost else '?'}`: without the separator the '&' between the fixed parameters and the first value is unaccounted, and a batch can exceed the budget by one although every single value fits", node=lp)
-    acc = [s for s in lp.body if isinstance(s, ast.AugAssign) and A.unparse(s.target) == "used"]
-    ctx.check("R3", ba, len(acc) == 1 and A.unparse(acc[0].value) == "cost", f"accumulates-cost:{A.unparse(acc[0].value)[:30] if acc else ''}", "`used` grows by exactly the cost, for every value (first of a batch included)",
+    if len(cost_st) == 1:
+        E["cost"] = cost_st[0].targets[0].id
+    # used: the running total, i.e. the local that is advanced once per value
+    acc = [s for s in lp.body if isinstance(s, ast.AugAssign) and _name(s.target)]
+    ctx.check("R3", ba, len(acc) == 1 and isinstance(acc[0].op, ast.Add) and "cost" in E and _name(acc[0].value) == E["cost"], f"accumulates-cost:{A.unparse(acc[0].value)[:30] if acc else ''}", "`used` grows by exactly the cost, for every value (first of a batch included)",
               f"`used` is advanced by `{A.unparse(acc[0].value) if acc else '?'}`: the first value of a batch is not charged its separator", node=lp)
+    if len(acc) == 1:
+        E["used"] = acc[0].target.id
+    # batch: the list every value is appended to
+    app = [s for s in lp.body if isinstance(s, ast.Expr) and M.pat(f"$batch.append({val})").matches(s.value) is not None]
+    if len(app) == 1:
+        E["batch"] = app[0].value.func.value.id
     fl = [n for n in lp.body if isinstance(n, ast.If)]
-    ok = len(fl) == 1 and A.unparse(fl[0].test) == "batch and used + cost > budget" and "yield rebuild(batch)" in A.unparse(fl[0]) and "batch, used = ([], 0)" in A.unparse(fl[0])
-    ctx.check("R3", ba, ok, f"flush-test:{A.unparse(fl[0].test)[:40] if fl else ''}", "a non-empty batch is flushed when the next value would exceed the budget (a single value always goes through)",
+    flush = M.pat("if $batch and $used + $cost > $budget:\n    yield $rebuild($batch)\n    $batch, $used = ([], 0)").matches(fl[0], E) if len(fl) == 1 else None
+    ctx.check("R3", ba, flush is not None and not fl[0].orelse, f"flush-test:{A.unparse(fl[0].test)[:40] if fl else ''}", "a non-empty batch is flushed when the next value would exceed the budget (a single value always goes through)",
               f"the flush test is `{A.unparse(fl[0].test) if fl else '?'}`", node=lp)
-    t = A.unparse(ba.node)
-    ctx.check("R3", ba, "empty = rebuild(())" in t and "budget = max_length - base_length - len(urllib.parse.urlencode(empty.params()))" in t, "budget-from-fixed-part", "budget = limit - base - encoded length of the query without the split values")
+    if flush is not None:
+        E = dict(flush.env)
+    fixed = [m for m in M.find(ba.node, "$empty = $rebuild(())\n$budget = max_length - base_length - len(urllib.parse.urlencode($empty.params()))", E) if m.node in ba.node.body and m.node.lineno < lp.lineno]
+    ctx.check("R3", ba, bool(fixed) and "rebuild" in E, "budget-from-fixed-part", "budget = limit - base - encoded length of the query without the split values")
     ctx.floor("R3", 4)
 
     # ---- R4 partition in order -----------------------------------------------------------------------------------------
-    app = [s for s in lp.body if isinstance(s, ast.Expr) and A.unparse(s.value) == f"batch.append({val})"]
     from ..core import cfg as CFG
     g = CFG.cfg_of(ba.node)
     skip = None
+    head = g.node_of(lp)
     if len(app) == 1:
         an_ = g.node_of(app[0])
-        head = g.node_of(lp)
         skip = g.find_path([g.node_of(lp.body[0])], lambda n: n is head or n is g.exit, avoid=lambda n: n is an_)
     ctx.check("R4", ba, len(app) == 1 and skip is None and bool(fl) and lp.body.index(app[0]) > lp.body.index(fl[0]), "each-value-once-in-order", "every value is appended exactly once on every path of an iteration, after the possible flush, in iteration order",
               "an iteration of the batching loop can end without appending its value: the value is in no batch", node=lp, witness=g.fmt_path(skip) if skip else None)
-    ctx.check("R4", ba, A.unparse(lp.iter) == "values" and "key, values, rebuild = axis" in t, "iterates-axis-values", "the loop walks the axis values in their original order")
-    ctx.check("R4", ba, A.unparse(ba.node.body[-1]) == "yield rebuild(batch)", "last-batch-flushed", "the last batch is always emitted")
-    first = ba.node.body[1] if isinstance(ba.node.body[0], ast.Expr) else ba.node.body[0]
-    ctx.check("R4", ba, "self._split_axis()) is None" in A.unparse(first) and "yield self" in A.unparse(first), "unsplittable-is-one-batch", "a query without a splittable axis is its own single batch")
-    ctx.check("R4", sa, "max(candidates, key=lambda axis: len(''.join(axis[1])))" in A.unparse(sa.node), "one-axis", "exactly one axis (the widest) is split")
+    ctx.check("R4", ba, "values" in E and _name(lp.iter) == E["values"], "iterates-axis-values", "the loop walks the axis values in their original order")
+    # after the loop, every way out of the function passes `yield rebuild(batch)`
+    tail = ba.node.body[ba.node.body.index(lp) + 1:]
+    final = [g.node_of(s) for s in tail if isinstance(s, ast.Expr) and "batch" in E and "rebuild" in E and M.pat("yield $rebuild($batch)").matches(s.value, E) is not None]
+    missed = g.find_path([head], lambda n: n is g.exit, avoid=lambda n: n in final)
+    ctx.check("R4", ba, bool(final) and missed is None, "last-batch-flushed", "the last batch is always emitted")
+    ctx.check("R4", ba, len(unsplit) == 1 and _effective(ba.node.body)[0] is unsplit[0].node, "unsplittable-is-one-batch", "a query without a splittable axis is its own single batch")
+    cands = M.one(sa.node, "$cands.extend($$g)", {"$g": gen})
+    ctx.check("R4", sa, cands is not None and M.has(sa.node, "return max($cands, key=lambda $a: len(''.join($a[1])))", {"cands": cands["cands"]}), "one-axis", "exactly one axis (the widest) is split")
     ctx.floor("R4", 5)
 
     # ---- R5 combination ---------------------------------------------------------------------------------------------------
@@ -119,9 +186,11 @@ def run(ctx):
               f"`&` combines charts as `{kw.get('charts')}`", node=an.node)
     ctx.check("R5", an, kw.get("simple") == "_merge_simple(self.simple, other.simple)", "simple-merged", "simple parameters are merged per key")
     ao = P.func(MOD, "BugQuery.any_of")
-    ctx.check("R5", ao, "if query.simple:" in A.unparse(ao.node) and "raise BugzillaUsageError" in A.unparse(ao.node) and "ChartGroup(Join.OR, tuple(charts))" in A.unparse(ao.node), "any_of-charts-only", "any_of refuses simple parameters (they cannot be ORed in a chart group)")
-    tm = A.unparse(ms.node)
-    if "existing + tuple((x for x in values if x not in existing))" in tm:
+    body = "for $q in queries:\n    if $q.simple:\n        raise BugzillaUsageError(...)\n    $ch.extend($q.charts)\nreturn cls(charts=(ChartGroup(Join.OR, tuple($ch)),))"
+    ored = _alt(ao.node, ["$ch: $_ = []\n" + body, "$ch = []\n" + body])
+    ctx.check("R5", ao, ored is not None and ored.node in ao.node.body, "any_of-charts-only", "any_of refuses simple parameters (they cannot be ORed in a chart group)")
+    menv = {"m": mrg["m"]} if mrg else {}
+    if M.has(ms.node, "for $k, $v in right:\n    $e = $m.get($k, ())\n    $m[$k] = $e + tuple(($x for $x in $v if $x not in $e))", menv):
         ctx.fail("R5", ms, "same-key-simple-values-unioned", "`a & b` with the same simple key on both sides (ids([1,2]) & ids([2,3]), category() & product(X)) UNIONS the values; Bugzilla ORs the values of one key, so the result is broader than the conjunction of the two constraints", node=ms.node)
     else:
         ctx.ob("R5", ms, "_merge_simple no longer unions same-key values")
